@@ -131,6 +131,12 @@ def run_case(c):
                         fnodes.MAX_REPETITIONS = now
                     if got2 is not None and got2 == exp:
                         mech = "open-ended-repetition-at-global-cap"
+                if missing and not extra and mech is None:
+                    # one forecast entry per (sender, message type): the same type offered to another recipient at the same
+                    # point is folded into the first entry.  Every omitted option then has an offered twin (same sender,
+                    # same type, other recipient).
+                    if all(any(o[0] == m_[0] and o[2] == m_[2] and o[1] != m_[1] for o in got) for m_ in missing):
+                        mech = "same-type-same-sender-recipients-merged"
                 if extra and not missing and letters:
                     # attribution: a (deliberately wrong) automaton in which an entered repetition iteration may be
                     # abandoned mid-way explains exactly these extra options
@@ -182,6 +188,11 @@ def run_case(c):
                     return
                 budget[0] -= 1
                 a = (party, pk.node.recipient, nt.name())
+                if sum(1 for x in ma.first(r) if x[0] == a[0] and x[2] == a[2]) > 1:
+                    # this entry stands for several grammar nodes (other recipients); which mount path belongs to which is
+                    # not observable here -- such histories are produced by parsing instead (below)
+                    stats["merged_entries_not_walked"] += 1
+                    continue
                 d = ma.deriv(r, a)
                 if d == ma.EMPTY:
                     continue   # already reported as an extra option
@@ -193,6 +204,58 @@ def run_case(c):
                 walk(t2, d, depth - 1, hist + [nt.name()], letters + (a,))
 
         walk(DerivationTree(NonTerminal("<start>")), R0, c["depth"], [])
+
+        # ---- histories obtained by PARSING message texts in prefix mode: every parse tree carries the party annotations of
+        # the alternative it took, so interactions that differ only in who a message was addressed to are told apart
+        if c["kind"] == "gen" and parties is None:
+            from fandango.language.grammar import ParsingMode
+            import itertools
+
+            def text_of(a_):
+                return a_[2][1:-1] + "%02d" % rng.randrange(100)
+
+            seqs = [()]
+            frontier = [((), R0)]
+            for _ in range(3):
+                nxt = []
+                for letters_, r_ in frontier:
+                    for a_ in sorted(ma.first(r_), key=repr):
+                        d_ = ma.deriv(r_, a_)
+                        if d_ != ma.EMPTY:
+                            nxt.append((letters_ + (a_,), d_))
+                rng.shuffle(nxt)
+                frontier = nxt[:6]
+                seqs.extend(l for l, _ in frontier)
+            seen_h = set()
+            for letters_ in seqs[1:]:
+                word = "".join(text_of(a_) for a_ in letters_)
+                try:
+                    steps.reset(budget=300000)
+                    trees = list(itertools.islice(g.parse_forest(word, "<start>", mode=ParsingMode.INCOMPLETE), 12))
+                except BaseException as e:
+                    if isinstance(e, (KeyboardInterrupt, SystemExit)) or type(e).__name__ == "CaseTimeout":
+                        raise
+                    stats["parsed_history_parse_failed"] += 1
+                    continue
+                for t_ in trees:
+                    try:
+                        h_ = tuple((m_.sender, m_.recipient, m_.msg.symbol.name()) for m_ in t_.protocol_msgs())
+                    except Exception:
+                        continue
+                    if not h_ or h_ in seen_h or "".join(str(m_.msg) for m_ in t_.protocol_msgs()) != word:
+                        continue
+                    seen_h.add(h_)
+                    r_ = R0
+                    for a_ in h_:
+                        r_ = ma.deriv(r_, a_)
+                    if r_ == ma.EMPTY:
+                        violations.append({"what": f"prefix-mode parse of {word!r} yields the message history {list(h_)}, which is not a prefix of any interaction of the spec",
+                                           "mech": None, "spec": text, "parties": parties})
+                        continue
+                    stats["parsed_histories"] += 1
+                    if len({(x[0], x[2]) for x in h_}) < len(set(h_)) or any(sum(1 for y in msgs if y[0] == x[0] and "<" + y[2] + ">" == x[2]) > 1 for x in h_):
+                        stats["parsed_histories_with_shared_message_type"] += 1
+                    check(t_, r_, [f"{x[0]}->{x[1]}:{x[2]}" for x in h_], letters=h_)
 
         # ---- single-branch chains past repetition bounds, with the process-wide cap lowered
         if c["kind"] == "gen" or True:
@@ -216,6 +279,8 @@ def run_case(c):
                 options.sort(key=lambda o: (o[1].name() != last, rng.random()))
                 party, nt, pk, mp = options[0]
                 a = (party, pk.node.recipient, nt.name())
+                if sum(1 for x in ma.first(r) if x[0] == a[0] and x[2] == a[2]) > 1:
+                    break
                 d = ma.deriv(r, a)
                 if d == ma.EMPTY:
                     break
